@@ -66,6 +66,7 @@ def make_spec(r, op, method, quick, force=None):
     kern = force.get("kern") or r.choice(KERNELS)
     scale = r.choice([1, 1, 1, vlib_frac(1, 64), 32])
     pts = _ll.gen_points(r, kind, N, D, scale)
+    intr = [list(c) for c in _ll.INTRINSIC] if kind.startswith("flat") else None
     kmin = max(min_k(method, d), 3 if op == "embed" else 1)
     c = r.choice([0, 1, 2])
     if c == 0:
@@ -86,6 +87,9 @@ def make_spec(r, op, method, quick, force=None):
         "lists": "knn" if r.chance(3, 4) else "random",
         "lseed": r.below(1 << 60),
     }
+    # flat-manifold clause: intrinsic coordinates handed to the driver when the data is exactly flat of dimension d
+    if intr is not None and op == "embed" and method in ("kltsa", "hlle") and kern == "linear" and int(kind[-1]) == d:
+        spec["intr"] = intr
     return spec
 
 
@@ -102,6 +106,8 @@ def build_line(spec):
     head = "op=%s N=%d k=%d d=%d shift=%s tshift=%s" % (spec["op"], N, k, spec["d"], spec["shift"], spec["tshift"])
     if spec["op"] == "embed":
         head += " method=%s nm=%s cc=%s seed=%s" % (spec["method"], spec["nm"], spec["cc"], spec["seed"])
+        if spec.get("intr") and len(spec["intr"]) == N:
+            head += " flat=" + _ll.fmt_matrix(spec["intr"])
     else:
         if spec["lists"] == "knn":
             nb = _ll.knn_from_sq(_ll.kernel_sq(K), k)
@@ -180,6 +186,8 @@ def judge(ctx, binary, specs):
         ctx.stat("verdict:" + cls + ((":" + sig) if cls == "skip" else ""))
         ctx.stat("kernel:" + spec["kern"])
         ctx.stat("data:" + spec["kind"])
+        if spec.get("intr"):
+            ctx.stat("flat-manifold-clause-checked")
         ctx.stat("d=%d" % spec["d"])
         ctx.stat("k:" + ("min" if spec["k"] <= max(3, min_k(spec["method"], spec["d"])) else "N-1" if spec["k"] >= N - 1 else "mid"))
         if spec["op"] == "embed":
@@ -284,6 +292,9 @@ def correspond(ctx):
             s = make_spec(rr.fork(), "embed", m, quick, force={"d": 4, "kind": "cloud", "D": 6})
             s["nm"] = nm
             specs.append(s)
+    for _ in range(4 if quick else 40):
+        for m, dd in (("kltsa", 1), ("kltsa", 2), ("hlle", 1), ("hlle", 2)):
+            specs.append(make_spec(rr.fork(), "embed", m, quick, force={"kind": "flat%d" % dd, "d": dd, "kern": "linear", "D": rr.choice([dd + 1, dd + 2, 5])}))
     batch = 40
     for i in range(0, len(specs), batch):
         judge(ctx, binary, specs[i:i + batch])
